@@ -855,8 +855,14 @@ class Executor:
         if kind == "for" and not (isinstance(n.iter, ast.Call) and isinstance(n.iter.func, ast.Name) and n.iter.func.id in ("range", "zip")):
             # for t in SEQ (a symbolic sequence)   ==>   for __zi in range(len(SEQ)): t = SEQ[__zi]
             itv = Evaluator(self, st).eval(n.iter)
+            seq_src = ast.unparse(n.iter)
+            if hasattr(itv, "sym_iter"):
+                # contract-supplied iteration protocol: the sequence the object yields in the CURRENT state, bound to a hidden name
+                itv = itv.sym_iter(Evaluator(self, st), n)
+                seq_src = f"__it{ordinal}"
+                st.env[seq_src] = itv
             if isinstance(itv, SeqVal):
-                src = f"for __zi in range(len({ast.unparse(n.iter)})):\n    {ast.unparse(n.target)} = ({ast.unparse(n.iter)})[__zi]\n    pass\n"
+                src = f"for __zi in range(len({seq_src})):\n    {ast.unparse(n.target)} = ({seq_src})[__zi]\n    pass\n"
                 new = ast.parse(src).body[0]
                 for x in ast.walk(new):
                     x.lineno = n.lineno
